@@ -217,9 +217,21 @@ func (m *C19Monitor) AfterTx(c *Chain, ctx sdk.Context, tx sdk.Tx, ok bool) {
 					d = dd
 				}
 			}
-			// (a) a funded dispute's consequences for the disputed reporter and the backers of that report
+			// (a) a FUNDED dispute's consequences for the disputed reporter and the backers of that report: after this
+			// transaction a dispute about that report exists whose whole fee (the slash amount) has been paid
 			ev := d.InitialEvidence
-			if addr, err := sdk.AccAddressFromBech32(ev.Reporter); err == nil {
+			funded := false
+			_ = c.App.DisputeKeeper.Disputes.Walk(ctx, nil, func(_ uint64, dd disputetypes.Dispute) (bool, error) {
+				e := dd.InitialEvidence
+				if e.Reporter == ev.Reporter && string(e.QueryId) == string(ev.QueryId) && e.BlockNumber == ev.BlockNumber &&
+					dd.SlashAmount.IsPositive() && dd.FeeTotal.GTE(dd.SlashAmount) {
+					funded = true
+					return true, nil
+				}
+				return false, nil
+			})
+			m.st.Bucket("c19|dispute-message|%T|funded-after=%v", x, funded)
+			if addr, err := sdk.AccAddressFromBech32(ev.Reporter); err == nil && funded {
 				allowed[ev.Reporter] = "disputed-reporter"
 				if snap, err := c.App.ReporterKeeper.Report.Get(ctx, collJoinReport(ev.QueryId, addr, ev.BlockNumber)); err == nil {
 					for _, o := range snap.TokenOrigins {
